@@ -511,7 +511,8 @@ class Automaton:
 
     UNROLL_CAP = 64
 
-    def __init__(self, pattern, flags=0, extra_chars=''):
+    def __init__(self, pattern, flags=0, extra_chars='', peeks=True):
+        self.peeks = peeks
         self.tree = parse(pattern, flags)
         self.flags = self.tree.state.flags | flags
         alpha = list(dict.fromkeys(BASE_ALPHABET + list(extra_chars)
@@ -635,13 +636,13 @@ class Automaton:
             lo, hi, s2 = av
             return self._build_repeat(lo, hi, s2, show([item]))
         if op is C.AT:
-            if tail and av in (C.AT_END, C.AT_END_STRING):
+            if tail and self.peeks and av in (C.AT_END, C.AT_END_STRING):
                 p = self._newpos(frozenset([self.aidx[EOS]]), '$', peek=True)
                 return False, {p}, {p}
             return True, set(), set()
         if op is C.ASSERT:
             d, s2 = av
-            if tail and d >= 0:
+            if tail and self.peeks and d >= 0:
                 cls = self._peek_class(s2)
                 if cls is not None:
                     p = self._newpos(cls, '(?=' + show(s2) + ')', peek=True)
@@ -1249,3 +1250,61 @@ def analyse_ambiguity(pattern, flags, bound=6):
             'witness': f"{pre!r} + {word!r}*n + {zz!r}",
         }
     return res
+
+
+def included(f_pattern, f_flags, r_pattern, r_flags, limit=200000):
+    """
+    Language inclusion L(F) <= L(R) under whole-string semantics, by on-the-fly
+    subset construction of R's position automaton along F's.  Zero-width
+    assertions of both are epsilon, so L(R) is over-approximated: a returned
+    counterexample word is a true non-member of L(R) (as far as consuming
+    structure goes); ``None`` means included in the over-approximation.
+    """
+    extra = ''.join(c for c in (f_pattern + r_pattern) if ord(c) > 126)
+    AF = Automaton(f_pattern, f_flags, extra_chars=extra, peeks=False)
+    AR = Automaton(r_pattern, r_flags, extra_chars=extra, peeks=False)
+    if AF.alphabet != AR.alphabet:
+        raise AnalysisError("alphabet mismatch in inclusion test")
+    from collections import deque
+    start = ('START', frozenset(['START']))
+    prev = {start: None}
+    dq = deque([start])
+
+    def word(state, last=None):
+        w = []
+        cur = state
+        while prev[cur] is not None:
+            pst, ch = prev[cur]
+            w.append(ch)
+            cur = pst
+        w.reverse()
+        if last:
+            w.append(last)
+        return ''.join(w)
+
+    if AF.nullable and not AR.nullable:
+        return ''
+    while dq:
+        st = dq.popleft()
+        pf, SR = st
+        succ_f = AF.first if pf == 'START' else AF.follow[pf]
+        for qf in succ_f:
+            # partition qf's characters by R's reaction
+            groups = {}
+            for ci in AF.pos_chars[qf]:
+                ch = AF.alphabet[ci]
+                nxt = frozenset(AR.step(SR, ch))
+                groups.setdefault(nxt, ch)
+            for nxt, ch in groups.items():
+                if not nxt:
+                    return word(st, ch)
+                ns = (qf, nxt)
+                if ns in prev:
+                    continue
+                prev[ns] = (st, ch)
+                if qf in AF.last and not AR.accepting(nxt):
+                    return word(ns)
+                dq.append(ns)
+                if len(prev) > limit:
+                    raise AnalysisError("inclusion test exceeded its state budget")
+    return None
